@@ -265,9 +265,14 @@ impl LexiconReader {
         self.num_system = num;
     }
 
-    pub fn preload_pos(&mut self, grammar: &Grammar) {
+    /// Preloads POS of the system dictionary.
+    ///
+    /// Only the first `num_system_pos` entries are used: user dictionary loader
+    /// rebases user-defined POS ids relative to the POS count of the system dictionary,
+    /// POS which were registered by plugins or other user dictionaries must not shift them.
+    pub fn preload_pos(&mut self, grammar: &Grammar, num_system_pos: usize) {
         assert_eq!(self.pos.len(), 0);
-        for (i, pos) in grammar.pos_list.iter().enumerate() {
+        for (i, pos) in grammar.pos_list.iter().take(num_system_pos).enumerate() {
             let key = StrPosEntry::from_built_pos(pos);
             self.pos.insert(key, i as u16);
         }
